@@ -83,3 +83,102 @@ theorem sortInts_eq (l : List Int) : Py.sortInts l = Kernel.sortInts l := by
     | cons b bs ihb => simp only [Py.insertSorted, Kernel.insertSorted, ihb]
 
 end Qco.KernelSrc
+
+namespace Qco.KernelSrc
+open Qco Qco.Py Qco.Kernel
+
+/-- an element of `indexing_kernels` as an object. -/
+def ikVal : IKernel → Val
+  | .rep k => repSelf k
+  | .cal c => calSelf c
+
+/-- a 2-d integer array (`create_sliced_arrays`). -/
+def arr2 (ll : List (List Int)) : Val := .arr (ll.map (fun l => Val.arr (l.map Val.int)))
+
+/-- `self` of a `RepetitionExperimentKernel` for element `e`: the kernels carry their getter results for `e`. -/
+def expFields (K : ExpKernel) (e : QId) : List (String × Val) :=
+  [("_repetition_kernels", .list (K.repKernels.map (fun k => repSelfE k e))),
+   ("_calibration_kernel", calSelfE K.calKernel e),
+   ("_qutrit_calibration_points", .bool K.qutrit), ("_repetitions", .int K.reps),
+   ("indexing_kernels", .list (K.indexingKernels.map ikVal)),
+   ("start_index", .int K.startIndex), ("kernel_cycle_length", .int K.cycleLength),
+   ("experiment_repetitions", .int K.reps)]
+
+def expSelf (K : ExpKernel) (e : QId) : Val := .obj "RepetitionExperimentKernel" 0 (expFields K e)
+
+/-- element getters of the kernels from their pseudo-fields (only for the element `e`), `create_sliced_arrays`
+    computed from its ARGUMENTS by the model's `slicedArrays`, `create_sliced_array` by `slicedArray`. -/
+def expEnv (e : QId) : Env :=
+  { method := fun recv m args =>
+      match m, args, recv with
+      | "create_sliced_arrays", [.list xs, .int cyc, .int reps], _ =>
+          (intsOf? xs).map (fun l => arr2 (slicedArrays l cyc reps.toNat))
+      | "create_sliced_array", [.list xs, .int cyc, .int reps], _ =>
+          (intsOf? xs).map (fun l => Val.arr ((slicedArray l cyc reps.toNat).map Val.int))
+      | _, [.int a], .obj _ _ fs => if a = (e : Int) then lookupField fs (m ++ "()") else Option.none
+      | _, _, _ => Option.none }
+
+theorem vars_set_set (vs : Vars) (x : String) (v v' : Val) : (vs.set x v).set x v' = vs.set x v' := by
+  unfold Vars.set
+  simp only [List.filter_cons, beq_self_eq_true, Bool.not_true, Bool.false_eq_true, if_false, List.filter_filter,
+    Bool.and_self]
+
+theorem indexVal_map_zero {α} (f : α → Val) (a : α) (l : List α) :
+    indexVal (.list ((a :: l).map f)) 0 = f a := by
+  simp [indexVal, Val.elems?]
+
+theorem indexVal_map_last {α} (f : α → Val) (l : List α) (a : α) (h : l.getLast? = some a) :
+    indexVal (.list (l.map f)) (-1) = f a := by
+  have hne : l ≠ [] := by intro h0; rw [h0] at h; cases h
+  have hlen : 0 < l.length := List.length_pos_iff.mpr hne
+  have hj : ((l.map f).length : Int) + -1 = ((l.length - 1 : Nat) : Int) := by
+    rw [List.length_map]; omega
+  have hidx : (l.map f)[l.length - 1]? = some (f a) := by
+    rw [List.getElem?_map]
+    have : l[l.length - 1]? = some a := by
+      rw [← List.getLast?_eq_getElem?]; exact h
+    rw [this]; rfl
+  simp only [indexVal, Val.elems?]
+  have hneg : ((-1 : Int) < 0) := by omega
+  simp only [hneg, if_true, hj]
+  have hnn : ¬ (((l.length - 1 : Nat) : Int) < 0) := by omega
+  simp only [hnn, if_false, Int.toNat_natCast, hidx, Option.getD_some]
+
+theorem ikVal_start (k : IKernel) : getAttr {} (ikVal k) "start_index" = .int k.startIndex := by
+  cases k <;> simp [ikVal, repSelf, repFields, calSelf, calFields, getAttr, lookupField, IKernel.startIndex]
+
+theorem ikVal_stop (k : IKernel) : getAttr {} (ikVal k) "stop_index" = .int k.stopIndex := by
+  cases k <;> simp [ikVal, repSelf, repFields, calSelf, calFields, getAttr, lookupField, IKernel.stopIndex]
+
+theorem expSelf_indexing (K : ExpKernel) (e : QId) :
+    getAttr {} (expSelf K e) "indexing_kernels" = .list (K.indexingKernels.map ikVal) := by
+  simp [expSelf, expFields, getAttr, lookupField]
+
+/-- value of a cycle getter: the 2-d array of the model, or the empty 1-d array when no kernel has that round count. -/
+def cycleVal : Option (List (List Int)) → Val
+  | some ll => arr2 ll
+  | none => .arr []
+
+/-- the loop of the three cycle getters (`for repetition_kernel in self._repetition_kernels: if … == count: return …`),
+    for a body that returns `R k` on a kernel with the requested round count and continues otherwise. -/
+theorem cycle_loop (e : QId) (count : Nat) (stmts : List Stmt) (R : RepKernel → Val) (vs0 : Vars)
+    (hbody : ∀ k : RepKernel, execBlock (expEnv e) (vs0.set "repetition_kernel" (repSelfE k e)) stmts =
+      if k.nr == count then .ret (R k) else .cont (vs0.set "repetition_kernel" (repSelfE k e))) :
+    ∀ (ks : List RepKernel) (vs : Vars), (∀ v, vs.set "repetition_kernel" v = vs0.set "repetition_kernel" v) →
+      (match ks.find? (fun k => k.nr == count) with
+       | some k => forLoop (fun vs' v => execBlock (expEnv e) (vs'.set "repetition_kernel" v) stmts)
+                      (ks.map (fun k => repSelfE k e)) vs = .ret (R k)
+       | none => ∃ vs'', forLoop (fun vs' v => execBlock (expEnv e) (vs'.set "repetition_kernel" v) stmts)
+                      (ks.map (fun k => repSelfE k e)) vs = .cont vs'') := by
+  intro ks
+  induction ks with
+  | nil => intro vs _; exact ⟨vs, rfl⟩
+  | cons k rest ih =>
+    intro vs hvs
+    simp only [List.map_cons, forLoop, hvs, hbody k, List.find?_cons]
+    cases hk : (k.nr == count)
+    · simp only [Bool.false_eq_true, if_false]
+      exact ih _ (fun v => vars_set_set vs0 _ _ v)
+    · simp only [if_true]
+
+end Qco.KernelSrc
